@@ -1,14 +1,20 @@
 /-
   C04 — completion of a tight program's theory has exactly its stable models.
-  Status (partial): the refusal half is proved (`completion_refuses`: whatever `completion`
+  Status (partial): proved are (1) the refusal half (`completion_refuses`: whatever `completion`
   accepts is completable in the sense of the independent specification `Completable`, and
-  predicates never get two different heads). The model-theoretic half (`CompletionTight`) is
-  stated and not yet proved; the tie is the exact-output correspondence.
+  predicates never get two different heads), and (2) the model-theoretic core at the level of the
+  reference semantics (`tight_stable_iff_supported`, Fages' theorem for mini-gringo with input
+  predicates: for a program reported tight, stable = supported classical model, where "supported"
+  is the reference form of the completed definitions) together with its tau* reading
+  (`tight_equilibrium_iff_supported`). What is not proved is that the formulas `completion`
+  builds from the tau* theory say exactly "model and supported" (`CompletionTight` stays stated);
+  that step is tied by the exact-output correspondence.
 -/
 import AnthemModel.Model.Completion
 import AnthemModel.Model.Analyze
 import AnthemModel.Model.TauStar
 import AnthemModel.Semantics.Asp
+import AnthemModel.Proofs.Fages
 namespace Anthem.C04
 open Asp
 
@@ -20,6 +26,64 @@ def CompletionTight : Prop :=
       ∀ (T : PredI) (fc : FcI) (ρ : Asg),
         (∀ q a, T q a → (⟨q, a.length⟩ : Pred) ∈ ext P.preds ins) →
         ((∀ F ∈ Γ, sat ⟨T, fc⟩ F ρ) ↔ Stable P ins T fc)
+
+/-- **C04, reference level** (Fages): for a program that `is_tight` accepts, and any input
+    predicates, the stable models are exactly the classical models in which every true atom of a
+    non-input predicate is produced by a rule with a true body. The direction "stable ⇒ supported"
+    holds for every program; tightness (no predicate depends positively on itself - `tight_iff_acyclic`)
+    is what makes "supported ⇒ stable" true. -/
+theorem tight_stable_iff_supported (P : Program) (htight : isTight P = true) (ins : List Pred)
+    (T : PredI) (fc : FcI) :
+    Stable P ins T fc ↔ progSat ⟨T, T, fc⟩ .there P ∧ Supported P ins T fc :=
+  Anthem.tight_stable_iff_supported P htight ins T fc
+
+/-- … read through the tau* theory (C01): the equilibrium models of `tau_star(Π)` with inputs are
+    the supported models. -/
+theorem tight_equilibrium_iff_supported (P : Program) (htight : isTight P = true)
+    (hp : globalsPanic P = false) (ins : List Pred) (T : PredI) (fc : FcI) (ρ : Asg) :
+    ((∀ F ∈ tauStar P, ht ⟨T, T, fc⟩ F .there ρ) ∧
+        ∀ H : PredI, (∀ q a, H q a → T q a) →
+          (∀ q a, (⟨q, a.length⟩ : Pred) ∈ ins → (H q a ↔ T q a)) →
+          (∀ F ∈ tauStar P, ht ⟨H, T, fc⟩ F .here ρ) → ∀ q a, T q a → H q a) ↔
+      (progSat ⟨T, T, fc⟩ .there P ∧ Supported P ins T fc) := by
+  rw [← Anthem.tight_stable_iff_supported P htight ins T fc]
+  unfold Stable
+  rw [tauStar_correct P hp ⟨T, T, fc⟩ .there ρ]
+  refine and_congr_right fun _ => forall_congr' fun H => imp_congr_right fun _ =>
+    imp_congr_right fun _ => ?_
+  rw [tauStar_correct P hp ⟨H, T, fc⟩ .here ρ]
+
+/-- Tightness matters: `p :- p.` has the supported model `{p}` which is not stable. -/
+theorem non_tight_counterexample :
+    let P : Program := [⟨.basic ⟨"p", []⟩, [.lit ⟨.pos, ⟨"p", []⟩⟩]⟩]
+    let T : PredI := fun q ds => q = "p" ∧ ds = []
+    isTight P = false ∧ (progSat ⟨T, T, fun _ _ => .inf⟩ .there P ∧ Supported P [] T (fun _ _ => .inf)) ∧
+      ¬ Stable P [] T (fun _ _ => .inf) := by
+  intro P T
+  refine ⟨by decide, ⟨?_, ?_⟩, ?_⟩
+  · intro r hr σ
+    simp only [P, List.mem_singleton] at hr
+    subst hr
+    refine ⟨fun _ ds hv => ?_, fun _ ds hv => ?_⟩ <;>
+      (cases ds <;> simp [valsList] at hv ⊢ <;> exact ⟨rfl, rfl⟩)
+  · intro q ds hT _
+    obtain ⟨rfl, rfl⟩ := hT
+    refine ⟨_, List.mem_singleton.mpr rfl, ⟨"p", []⟩, Or.inl rfl, rfl, fun _ => .inf, trivial, ?_⟩
+    intro f hf
+    simp only [List.mem_singleton] at hf
+    subst hf
+    exact ⟨[], trivial, rfl, rfl⟩
+  · intro hst
+    have := hst.2 (fun _ _ => False) (fun _ _ h => h.elim) (fun _ _ h => by cases h) ?_ "p" [] ⟨rfl, rfl⟩
+    · exact this
+    · intro r hr σ
+      simp only [P, List.mem_singleton] at hr
+      subst hr
+      refine ⟨fun hb => ?_, fun _ ds hv => ?_⟩
+      · have := hb _ List.mem_cons_self
+        obtain ⟨ds, _, h⟩ := this
+        exact h.elim
+      · cases ds <;> simp [valsList] at hv ⊢ <;> exact ⟨rfl, rfl⟩
 
 /-- Independent specification of a completable formula: closed; after at most one universal
     quantifier an implication (either direction) whose consequent is `#false` or an atom whose
